@@ -261,6 +261,43 @@ func runC08Tdx(c *Ctx) {
 		st.mrtd(img, secs, nil, false, false, "witness-tempmem-2GiB-not-measured", true)
 	}
 
+	// 2b. the cap on the total declared memory counts every section (firmware volumes included), at k-1, k,
+	//     k+1 pages around the limit, with the closing section of each type that can be large; free of
+	//     neighbours and in the mode that does not materialise it, so an image accepted beyond the cap shows
+	//     as "ok" here (the model refuses it) rather than as an overlap error
+	for _, d := range []int64{-0x1000, 0, 0x1000} {
+		for _, order := range []int{0, 1} {
+			secs := c08Base(size)
+			var tot uint64
+			for _, s := range secs {
+				tot += s.MSize
+			}
+			big := tdxSec{Base: 1 << 33, MSize: uint64(int64(1<<32-tot) + d), Type: 3}
+			if order == 0 {
+				secs = append(secs, big)
+			} else {
+				// the large section declared first: the running total then meets the firmware volume last
+				secs = append([]tdxSec{big}, secs...)
+			}
+			img := buildTdxImage(tdxImgSpec{Size: size, MetaAt: 0x40, Secs: secs})
+			st.regions(img, secs, nil, 0, "total-limit", true)
+		}
+	}
+	// many firmware volumes, each a view of the whole file at its own address: their sizes count towards
+	// the cap like any other section, so the 32-bit sum of volume sizes cannot wrap back to the file size
+	if c.Tier == "thorough" {
+		const big = 0x80000
+		n := (1<<32)/big + 1
+		secs := make([]tdxSec, 0, n+1)
+		for i := 0; i < n; i++ {
+			secs = append(secs, tdxSec{Off: 0, DSize: big, Base: 1<<40 + uint64(i)*big, MSize: big, Type: map[bool]uint32{false: 0, true: 1}[i > 0], Attr: 1})
+		}
+		// a TD HOB section large enough for one resource descriptor per section
+		secs = append(secs, tdxSec{Base: 0x800000, MSize: 0x80000, Type: 2})
+		img := buildTdxImage(tdxImgSpec{Size: big, MetaAt: 0x40, Secs: secs})
+		st.mrtd(img, secs, nil, false, false, "volume-size-sum-wraps", true)
+	}
+
 	// 3. metadata offset near 0 / len
 	for _, off := range []uint32{0, 1, 8, 15, 16, 17, 31, 32, size - 0x40 - 16 - 1, size - 0x40 - 16, size - 0x40 - 16 + 1, size - 33, size - 17, size - 16, size - 15, size - 1, size, size + 1, 1 << 31, 1<<32 - 1} {
 		img := buildTdxImage(tdxImgSpec{Size: size, MetaAt: 0x40, Secs: c08Base(size), OffsetV: u32p(off)})
